@@ -1823,4 +1823,341 @@ theorem jeventsFrom_lengths (n : Nat) (bs : List JBlock) :
   | nil => rfl
   | cons b bs ih => simp [jeventsFrom, plinesFromTab_length, ih]
 
+/-! # A keep-everything constructor filter (`filters={}`, `{'charged_particles': False}` …)
+
+With `filters=` given, the loaders rewrite the count row of every event they close; nothing else changes.  The loop run
+with `idFilter` is simulated by the loop without filters: same closed events, same pending data, same `cut`; only the
+counts array differs (or the rewriting fails).  Hence a file rejected without options is rejected with such options,
+and a file accepted with them is accepted without them, with the same events and `num_events`. -/
+
+theorem closeEvent_id (pl : List (List PLine)) (d : List PLine) (c : Counts) (cut : Int) (fl : Int) :
+    closeEvent ⟨pl, d, c, cut⟩ (some idFilter) fl =
+      match setRow c pl.length ((pl.length : Int) + fl, (d.length : Int)) with
+      | .error e => .error e
+      | .ok c' => .ok ⟨pl ++ [d], [], c', cut⟩ := by
+  simp only [closeEvent, idFilter, bind, Except.bind, pure, Except.pure, ne_or_eq_zero, if_true]
+  cases setRow c pl.length ((pl.length : Int) + fl, (d.length : Int)) with
+  | error e => rfl
+  | ok c' => rfl
+
+/-- loop states that differ at most in the counts array -/
+def SameBut (s t : LoopSt) : Prop := s.plist = t.plist ∧ s.data = t.data ∧ s.cut = t.cut
+
+theorem loop_id_sim (fmt attrs fl fl') (n : Nat) : ∀ (lineNo : Nat) (first : Bool) (lines : List LineF) (s t s' : LoopSt),
+    SameBut s t → oscarLoop fmt attrs (some idFilter) fl n lineNo first lines s = .ok s' →
+    ∃ t', oscarLoop fmt attrs none fl' n lineNo first lines t = .ok t' ∧ SameBut s' t' := by
+  induction n with
+  | zero =>
+    intro lineNo first lines s t s' hst h
+    simp only [oscarLoop] at h ⊢
+    cases h
+    exact ⟨t, rfl, hst⟩
+  | succ n ih =>
+    intro lineNo first lines s t s' hst h
+    obtain ⟨spl, sd, sc, scut⟩ := s
+    obtain ⟨tpl, td, tc, tcut⟩ := t
+    obtain ⟨e1, e2, e3⟩ := hst
+    simp only at e1 e2 e3
+    subst e1 e2 e3
+    cases lines with
+    | nil => simp [oscarLoop] at h
+    | cons l ls =>
+      simp only [oscarLoop] at h ⊢
+      split at h
+      · cases h
+      · rename_i h0
+        simp only [h0]
+        split at h
+        · rename_i h1
+          simp only [h1, if_true]
+          (refine ih _ _ _ _ _ _ ?_ h; exact ⟨rfl, rfl, rfl⟩)
+        · rename_i h1
+          simp only [h1]
+          split at h
+          · rename_i h2
+            simp only [h2, if_true]
+            rw [closeEvent_id] at h
+            rw [closeEvent_none]
+            cases hs : setRow sc spl.length ((spl.length : Int) + fl, (sd.length : Int)) with
+            | error e => simp [hs, bind, Except.bind] at h
+            | ok c' =>
+              simp only [hs, bind, Except.bind] at h ⊢
+              (refine ih _ _ _ _ _ _ ?_ h; exact ⟨rfl, rfl, rfl⟩)
+          · rename_i h2
+            simp only [h2]
+            split at h
+            · cases h
+            · rename_i h3
+              simp only [h3]
+              split at h
+              · cases h
+              · rename_i h4
+                simp only [h4]
+                split at h
+                · cases h
+                · rename_i h5
+                  simp only [h5]
+                  (refine ih _ _ _ _ _ _ ?_ h; exact ⟨rfl, rfl, rfl⟩)
+
+/-- `oscarCore` with a constructor filter -/
+def oscarCoreG (filt : Option EvFilter) (fmt : Fmt) (attrs : List String) (ne : Int) (rows : List (Int × Int))
+    (foot : List String) (body : List LineF) : Except Err Loaded :=
+  if nreadOf rows < 0 then .error .index else
+  match oscarLoop fmt attrs filt (firstLab rows) (nreadOf rows).toNat 3 true body ⟨[], [], .arr2d rows, 0⟩ with
+  | .error e => .error e
+  | .ok st =>
+    if (st.plist.length : Int) != ne - st.cut then .error .index else
+    .ok { events := if st.plist.isEmpty then [[]] else st.plist, numEvents := ne - st.cut, counts := st.counts,
+          fmt := some fmt, customAttrs := attrs, footers := foot }
+
+theorem readOscar_eqG (filt : Option EvFilter) (f : FileF) (first : LineF) (fmt : Fmt) (attrs : List String)
+    (h1 : f.lines.head? = some first) (h2 : oscarFormat first = .ok (fmt, attrs)) (h3 : fmtModelled fmt = true) :
+    readOscar f .all filt =
+      match oscarNumEvents f with
+      | .error e => .error e
+      | .ok ne => match oscarScan f.lines with
+        | .error e => .error e
+        | .ok rf => oscarCoreG filt fmt attrs ne rf.1 rf.2 (f.lines.drop 3) := by
+  have h3a : (fmt == Fmt.extendedIC) = false := by cases fmt <;> simp_all [fmtModelled]
+  have h3b : (fmt == Fmt.extendedPhotons) = false := by cases fmt <;> simp_all [fmtModelled]
+  unfold readOscar
+  simp only [validSel, h1, h2, h3a, h3b, bind, Except.bind, pure, Except.pure, Bool.or_self, Bool.false_eq_true, if_false]
+  cases oscarNumEvents f with
+  | error e => rfl
+  | ok ne =>
+    simp only []
+    cases oscarScan f.lines with
+    | error e => rfl
+    | ok rf =>
+      obtain ⟨rows, foot⟩ := rf
+      simp only [skipLines, readLines, selectRows, oscarCoreG, nreadOf, finish, firstLab]
+      have e3 : Int.toNat 3 = 3 := rfl
+      have e4 : decide ((3 : Int) < 0) = false := by decide
+      rw [e3, e4, Bool.or_false]
+      by_cases hn : sumCounts rows 0 + 2 * (rows.length : Int) < 0
+      · simp [hn, throw, throwThe, MonadExceptOf.throw]
+      · simp only [hn, decide_false, Bool.false_eq_true, if_false]
+        cases rows with
+        | nil =>
+          dsimp only
+          split
+          · rename_i hst; simp only [hst]
+          · rename_i st hst
+            simp only [hst]
+            by_cases hc : ((st.plist.length : Int) != ne - st.cut) = true
+            · simp [hc, throw, throwThe, MonadExceptOf.throw, bind, Except.bind]
+            · simp [hc, pure, Except.pure]
+        | cons r rs =>
+          dsimp only
+          split
+          · rename_i hst; simp only [hst]
+          · rename_i st hst
+            simp only [hst]
+            by_cases hc : ((st.plist.length : Int) != ne - st.cut) = true
+            · simp [hc, throw, throwThe, MonadExceptOf.throw, bind, Except.bind]
+            · simp [hc, pure, Except.pure]
+
+/-- **Oscar, keep-everything filter**: whatever is loaded with it is loaded without it — same events, same
+`num_events`. -/
+theorem readOscar_id_sim (f : FileF) (first : LineF) (fmt : Fmt) (attrs : List String)
+    (h1 : f.lines.head? = some first) (h2 : oscarFormat first = .ok (fmt, attrs)) (h3 : fmtModelled fmt = true)
+    (L : Loaded) (h : readOscar f .all (some idFilter) = .ok L) :
+    ∃ L', readOscar f .all none = .ok L' ∧ L'.events = L.events ∧ L'.numEvents = L.numEvents := by
+  rw [readOscar_eqG _ f first fmt attrs h1 h2 h3] at h
+  rw [readOscar_eqG none f first fmt attrs h1 h2 h3]
+  cases hne : oscarNumEvents f with
+  | error e => simp [hne] at h
+  | ok ne =>
+    simp only [hne] at h ⊢
+    cases hs : oscarScan f.lines with
+    | error e => simp [hs] at h
+    | ok rf =>
+      simp only [hs] at h ⊢
+      unfold oscarCoreG at h ⊢
+      split at h
+      · cases h
+      · rename_i hn
+        simp only [hn, if_false]
+        cases hl : oscarLoop fmt attrs (some idFilter) (firstLab rf.1) (nreadOf rf.1).toNat 3 true (f.lines.drop 3)
+            ⟨[], [], .arr2d rf.1, 0⟩ with
+        | error e => simp [hl] at h
+        | ok st =>
+          obtain ⟨t', ht', hp, _, hc⟩ := loop_id_sim fmt attrs _ (firstLab rf.1) _ _ _ _ _ ⟨[], [], .arr2d rf.1, 0⟩ st
+            ⟨rfl, rfl, rfl⟩ hl
+          simp only [hl] at h
+          simp only [ht']
+          rw [← hp, ← hc]
+          split at h
+          · cases h
+          · rename_i hcnt
+            simp only [hcnt]
+            cases h
+            exact ⟨_, rfl, rfl, rfl⟩
+
+theorem readOscar_id_error (f : FileF) (first : LineF) (fmt : Fmt) (attrs : List String)
+    (h1 : f.lines.head? = some first) (h2 : oscarFormat first = .ok (fmt, attrs)) (h3 : fmtModelled fmt = true)
+    (e : Err) (h : readOscar f .all none = .error e) : ∃ e', readOscar f .all (some idFilter) = .error e' := by
+  cases hr : readOscar f .all (some idFilter) with
+  | error e' => exact ⟨e', rfl⟩
+  | ok L =>
+    obtain ⟨L', hL', _⟩ := readOscar_id_sim f first fmt attrs h1 h2 h3 L hr
+    rw [h] at hL'; cases hL'
+
+theorem jloop_id_sim (fl fl' fh) (n : Nat) : ∀ (lineNo : Nat) (first : Bool) (lines : List LineF) (s t s' : LoopSt),
+    SameBut s t → jetscapeLoop (some idFilter) fl fh n lineNo first lines s = .ok s' →
+    ∃ t', jetscapeLoop none fl' fh n lineNo first lines t = .ok t' ∧ SameBut s' t' := by
+  induction n with
+  | zero =>
+    intro lineNo first lines s t s' hst h
+    simp only [jetscapeLoop] at h ⊢
+    cases h
+    exact ⟨t, rfl, hst⟩
+  | succ n ih =>
+    intro lineNo first lines s t s' hst h
+    obtain ⟨spl, sd, sc, scut⟩ := s
+    obtain ⟨tpl, td, tc, tcut⟩ := t
+    obtain ⟨e1, e2, e3⟩ := hst
+    simp only at e1 e2 e3
+    subst e1 e2 e3
+    cases lines with
+    | nil => simp [jetscapeLoop] at h
+    | cons l ls =>
+      simp only [jetscapeLoop] at h ⊢
+      split at h
+      · rename_i h0
+        simp only [h0, if_true]
+        rw [closeEvent_id] at h
+        rw [closeEvent_none]
+        cases hs : setRow sc spl.length ((spl.length : Int) + fl, (sd.length : Int)) with
+        | error e => simp [hs, bind, Except.bind] at h
+        | ok c' =>
+          simp only [hs, bind, Except.bind] at h ⊢
+          (refine ih _ _ _ _ _ _ ?_ h; exact ⟨rfl, rfl, rfl⟩)
+      · rename_i h0
+        split at h
+        · cases h
+        · rename_i h1
+          split at h
+          · rename_i h2
+            split at h
+            · cases h
+            · split at h
+              · cases h
+              · split at h
+                · rename_i h3
+                  simp only [h0, h1, h2, h3, Bool.false_eq_true, if_false, if_true]
+                  (refine ih _ _ _ _ _ _ ?_ h; exact ⟨rfl, rfl, rfl⟩)
+                · rename_i h3
+                  simp only [h0, h1, h2, h3, Bool.false_eq_true, if_false, if_true]
+                  rw [closeEvent_id] at h
+                  rw [closeEvent_none]
+                  cases hs : setRow sc spl.length ((spl.length : Int) + fl, (sd.length : Int)) with
+                  | error e => simp [hs, bind, Except.bind] at h
+                  | ok c' =>
+                    simp only [hs, bind, Except.bind] at h ⊢
+                    (refine ih _ _ _ _ _ _ ?_ h; exact ⟨rfl, rfl, rfl⟩)
+          · rename_i h2
+            split at h
+            · cases h
+            · rename_i h3
+              split at h
+              · cases h
+              · rename_i h4
+                simp only [h0, h1, h2, h3, h4, Bool.false_eq_true, if_false]
+                (refine ih _ _ _ _ _ _ ?_ h; exact ⟨rfl, rfl, rfl⟩)
+
+def jCoreG (filt : Option EvFilter) (rows : List (Int × Int)) (body : List LineF) : Except Err Loaded :=
+  if jnreadOf rows + 1 < 0 then .error .index else
+  match jetscapeLoop filt (firstLabJ rows) 1 (jnreadOf rows + 1).toNat 1 true body ⟨[], [], .arr2d rows, 0⟩ with
+  | .error e => .error e
+  | .ok st =>
+    if (st.plist.length : Int) != (rows.length : Int) - st.cut then .error .index else
+    .ok { events := if st.plist.isEmpty then [[]] else st.plist, numEvents := (rows.length : Int) - st.cut,
+          counts := st.counts, fmt := none, customAttrs := [], footers := [] }
+
+theorem readJetscape_eqG (filt : Option EvFilter) (f : FileF) (pt : Bool) :
+    readJetscape f .all pt filt =
+      match jetscapeInitOk f with
+      | .error e => .error e
+      | .ok _ => match jetscapeScan pt f.lines with
+        | .error e => .error e
+        | .ok rows => jCoreG filt rows (f.lines.drop 1) := by
+  unfold readJetscape
+  simp only [validSel, bind, Except.bind, pure, Except.pure]
+  cases jetscapeInitOk f with
+  | error e => rfl
+  | ok u =>
+    simp only []
+    cases jetscapeScan pt f.lines with
+    | error e => rfl
+    | ok rows =>
+      simp only [skipLines, readLines, selectRows, jCoreG, jnreadOf, finish, firstLabJ, Int.one_mul]
+      have e3 : Int.toNat 1 = 1 := rfl
+      have e4 : decide ((1 : Int) < 0) = false := by decide
+      rw [e3, e4, Bool.or_false]
+      by_cases hn : sumCounts rows 0 + (rows.length : Int) + 1 < 0
+      · simp only [hn, decide_true, if_true]; rfl
+      · simp only [hn, decide_false, Bool.false_eq_true, if_false]
+        cases rows with
+        | nil =>
+          dsimp only
+          split
+          · rename_i hst; simp only [hst]
+          · rename_i st hst
+            simp only [hst]
+            by_cases hc : ((st.plist.length : Int) != ((([] : List (Int × Int)).length : Nat) : Int) - st.cut) = true
+            · simp only [hc, if_true]; rfl
+            · simp only [hc]; rfl
+        | cons r rs =>
+          dsimp only
+          split
+          · rename_i hst; simp only [hst]
+          · rename_i st hst
+            simp only [hst]
+            by_cases hc : ((st.plist.length : Int) != (((r :: rs).length : Nat) : Int) - st.cut) = true
+            · simp only [hc, if_true]; rfl
+            · simp only [hc]; rfl
+
+/-- **JETSCAPE, keep-everything filter**: whatever is loaded with it is loaded without it — same events, same
+`num_events`. -/
+theorem readJetscape_id_sim (f : FileF) (pt : Bool) (L : Loaded) (h : readJetscape f .all pt (some idFilter) = .ok L) :
+    ∃ L', readJetscape f .all pt none = .ok L' ∧ L'.events = L.events ∧ L'.numEvents = L.numEvents := by
+  rw [readJetscape_eqG] at h ⊢
+  cases hi : jetscapeInitOk f with
+  | error e => rw [hi] at h; cases h
+  | ok u =>
+    simp only [hi] at h ⊢
+    cases hs : jetscapeScan pt f.lines with
+    | error e => simp only [hs] at h; cases h
+    | ok rows =>
+      simp only [hs] at h ⊢
+      unfold jCoreG at h ⊢
+      split at h
+      · cases h
+      · rename_i hn
+        simp only [hn, if_false]
+        cases hl : jetscapeLoop (some idFilter) (firstLabJ rows) 1 (jnreadOf rows + 1).toNat 1 true (f.lines.drop 1)
+            ⟨[], [], .arr2d rows, 0⟩ with
+        | error e => simp only [hl] at h; cases h
+        | ok st =>
+          obtain ⟨t', ht', hp, _, hc⟩ := jloop_id_sim _ (firstLabJ rows) 1 _ _ _ _ _ ⟨[], [], .arr2d rows, 0⟩ st
+            ⟨rfl, rfl, rfl⟩ hl
+          simp only [hl] at h
+          simp only [ht']
+          rw [← hp, ← hc]
+          split at h
+          · cases h
+          · rename_i hcnt
+            simp only [hcnt]
+            cases h
+            exact ⟨_, rfl, rfl, rfl⟩
+
+theorem readJetscape_id_error (f : FileF) (pt : Bool) (e : Err) (h : readJetscape f .all pt none = .error e) :
+    ∃ e', readJetscape f .all pt (some idFilter) = .error e' := by
+  cases hr : readJetscape f .all pt (some idFilter) with
+  | error e' => exact ⟨e', rfl⟩
+  | ok L =>
+    obtain ⟨L', hL', _⟩ := readJetscape_id_sim f pt L hr
+    rw [h] at hL'; cases hL'
+
 end SparkxVerif.Rd.Dmg
